@@ -109,7 +109,15 @@ func specFromKey(k int64) (elemSpec, bool) {
 	return elemSpec{}, false
 }
 
-func newExpSession(env *Env) (*expSession, error) {
+type expOpts struct {
+	noListener bool // the peer is a real collector started by the caller
+	tls        *exporter.ExporterTLSClientConfig
+	addr       string
+}
+
+func newExpSession(env *Env) (*expSession, error) { return newExpSessionOpts(env, expOpts{}) }
+
+func newExpSessionOpts(env *Env, o expOpts) (*expSession, error) {
 	pl := env.Plan
 	s := &expSession{env: env, tmpls: map[int]*tmplInfo{}, inCall: -1}
 	s.proto = "tcp"
@@ -121,13 +129,21 @@ func newExpSession(env *Env) (*expSession, error) {
 	if cfgOr(pl, "v6", 0) == 1 {
 		s.addr = "[fd00::1]:4739"
 	}
-	env.Net.OnConnect = func(cl, sv *simnet.Conn) {
-		cl.Tap = func(p []byte) { s.tap(p) }
+	if o.addr != "" {
+		s.addr = o.addr
 	}
-	env.Net.OnUDPBind = func(c *simnet.UDPConn) {
-		c.Tap = func(to *net.UDPAddr, p []byte) { s.tap(p) }
+	if o.tls == nil {
+		// taps see plaintext only; with TLS/DTLS the wire carries ciphertext
+		env.Net.OnConnect = func(cl, sv *simnet.Conn) {
+			cl.Tap = func(p []byte) { s.tap(p) }
+		}
+		env.Net.OnUDPBind = func(c *simnet.UDPConn) {
+			if c.RemoteAddr() != nil {
+				c.Tap = func(to *net.UDPAddr, p []byte) { s.tap(p) }
+			}
+		}
 	}
-	if s.proto == "tcp" {
+	if s.proto == "tcp" && !o.noListener {
 		l, err := env.Net.Listen("tcp", s.addr)
 		if err != nil {
 			return nil, err
@@ -141,6 +157,7 @@ func newExpSession(env *Env) (*expSession, error) {
 		TempRefTimeout:      uint32(cfgOr(pl, "refresh", 0)),
 		IsIPv6:              cfgOr(pl, "v6", 0) == 1,
 		CheckConnInterval:   time.Duration(cfgOr(pl, "check_ms", 0)) * time.Millisecond,
+		TLSClientConfig:     o.tls,
 	}
 	s.refresh = time.Duration(in.TempRefTimeout) * time.Second
 	if s.proto == "udp" && in.TempRefTimeout == 0 {
@@ -297,6 +314,42 @@ func (s *expSession) opDataUnknown(i int, op plan.Op) {
 }
 
 func (s *expSession) opData(i int, op plan.Op) {
+	if lim := int(cfgOr(s.env.Plan, "limit", 0)); lim > 0 && len(op.F) == 0 {
+		for try := 0; try < 12 && s.estimate(op) > lim; try++ {
+			if op.B > 1 {
+				op.B = op.B / 2
+			} else {
+				op.D = op.D / 2
+			}
+		}
+		if s.estimate(op) > lim {
+			return
+		}
+	}
+	s.opData1(i, op)
+}
+
+// estimate returns the size of the message opData1 would build for op.
+func (s *expSession) estimate(op plan.Op) int {
+	ti := s.tmpls[int(op.A)]
+	if ti == nil {
+		return 0
+	}
+	r := rand.New(rand.NewPCG(uint64(op.C), 0xda7a))
+	nrec := int(op.B)
+	if nrec < 1 {
+		nrec = 1
+	}
+	total := 20
+	for rec := 0; rec < nrec; rec++ {
+		for _, sp := range ti.Specs {
+			total += encodedLen(sp, genWire(r, sp, int(op.D)))
+		}
+	}
+	return total
+}
+
+func (s *expSession) opData1(i int, op plan.Op) {
 	slot := int(op.A)
 	ti := s.tmpls[slot]
 	if ti == nil {
